@@ -6,6 +6,7 @@ import (
 	"math/big"
 	"testing"
 
+	"verif/cs"
 	"verif/eng"
 	"verif/gad"
 	"verif/rec"
@@ -87,8 +88,48 @@ func unmarshal[T any](b json.RawMessage) T {
 	return v
 }
 
+// compiledEvery: every n-th gadget case (by input hash) is additionally compiled with gnark's
+// real R1CS / SCS builder and solved with the reference outputs as expected values, so that
+// behaviour specific to a builder (expression sharing, constant folding, hint wiring) is reached too.
+var compiledEvery = uint64(12)
+
+func alsoCompiled(name string, in []*big.Int, fn gad.Fn, want []*big.Int) *caseResult {
+	if compiledEvery == 0 {
+		return nil
+	}
+	h := rec.Hash(name + fmt.Sprint(in))
+	if h%compiledEvery != 0 {
+		return nil
+	}
+	kind, mech := cs.R1CS, cs.MechForcedBits
+	if (h/compiledEvery)%2 == 1 {
+		kind = cs.SCS
+	}
+	if (h/compiledEvery/2)%2 == 1 {
+		mech = cs.MechNative
+	}
+	sys, err := cs.Compile(kind, mech, len(in), len(want), fn)
+	if err != nil {
+		return &caseResult{Viol: name + "/compile-" + kind.String(), Desc: fmt.Sprintf("%s%v does not compile for %s/%s although the engine accepts it: %v", name, in, kind, mech, truncate(err.Error(), 200))}
+	}
+	if err := sys.Solve(in, want); err != nil {
+		return &caseResult{Viol: name + "/compiled-" + kind.String(), Desc: fmt.Sprintf("%s%v: compiled %s/%s system rejects the honest witness with the reference outputs as expected values: %v", name, in, kind, mech, truncate(err.Error(), 200))}
+	}
+	return nil
+}
+
 // expectOutputs runs a gadget honestly and compares its outputs with the reference values.
 func expectOutputs(name string, mode eng.Mode, in []*big.Int, fn gad.Fn, want []*big.Int) caseResult {
+	cr := expectOutputsEng(name, mode, in, fn, want)
+	if cr.Viol == "" {
+		if c2 := alsoCompiled(name, in, fn, want); c2 != nil {
+			return *c2
+		}
+	}
+	return cr
+}
+
+func expectOutputsEng(name string, mode eng.Mode, in []*big.Int, fn gad.Fn, want []*big.Int) caseResult {
 	res, out := gad.Run(eng.Options{Mode: mode}, in, fn)
 	if res.Outcome != eng.Accept {
 		return caseResult{Viol: name + "/not-accepted", Desc: fmt.Sprintf("%s%v (%s flavour) with honest hints: %s", name, in, mode, fmtRes(res))}
